@@ -71,11 +71,14 @@ func StrictValiditySignatureCheck(atTs, validUntil spec.Timestamp) bool {
 	// future when determining if a key is valid.
 	// https://matrix.org/docs/spec/rooms/v5#signing-key-validity-period
 	sevenDaysFuture := time.Now().Add(time.Hour * 24 * 7)
-	validUntilTS := validUntil.Time()
-	if validUntilTS.After(sevenDaysFuture) {
-		validUntilTS = sevenDaysFuture
+	// Compare the millisecond timestamps themselves: spec.Timestamp is
+	// unsigned, and Timestamp.Time() converts through int64, which would
+	// place a timestamp of 2^63 ms or more far in the past.
+	validUntilTS := validUntil
+	if sevenDaysFutureTS := spec.AsTimestamp(sevenDaysFuture); validUntilTS > sevenDaysFutureTS {
+		validUntilTS = sevenDaysFutureTS
 	}
-	if atTs.Time().After(validUntilTS) {
+	if atTs > validUntilTS {
 		return false
 	}
 	return true
